@@ -31,7 +31,7 @@ func (m *Machine) goValue(a Iface, verb byte) (interface{}, bool) {
 		return nil, true
 	}
 	// error / Stringer take precedence for %v %s %q
-	if verb == 'v' || verb == 's' || verb == 'q' {
+	if verb == 'v' || verb == 's' || verb == 'q' || verb == 'x' || verb == 'X' {
 		if fn := m.lookupMethod(a.T, "Error"); fn != nil && fn.Signature.Params().Len() == 0 {
 			if p, ok := a.V.(Ptr); ok && p.L == nil {
 				return "<nil>", true
@@ -205,6 +205,9 @@ func (m *Machine) symFormat(a Iface, verb byte, spec string) []*sym.Term {
 	case Slice:
 		if verb == 's' && spec == "%s" {
 			return m.sliceTerms(x)
+		}
+		if verb == 'x' && (spec == "%x" || spec == "%02x") {
+			return m.hexBytes(m.sliceTerms(x))
 		}
 	}
 	m.unsupported("fmt: symbolic operand of type %v with %s", a.T, spec)
